@@ -101,6 +101,10 @@ PINS = [
     'mesonbuild.coredata:load',
     'mesonbuild.depfile:DepFile.__init__',
     'mesonbuild.modules.pkgconfig:PkgConfigModule._generate_pkgconfig_file',
+    'mesonbuild.environment:_get_env_var',
+    'mesonbuild.environment:Environment._set_default_options_from_env',
+    'mesonbuild.environment:Environment.add_lang_args',
+    'mesonbuild.options:UserArrayOption.extend_value',
 ]
 TRUSTED = [
     'SHA-1 is an opaque function in the model (wrapperName is parametric in it)',
@@ -200,6 +204,27 @@ def base_option_names() -> T.List[str]:
 def builtin_names() -> T.List[str]:
     from mesonbuild import options as O
     return sorted(k.name for k in O.BUILTIN_OPTIONS)
+
+
+def env_tables() -> T.Optional[dict]:
+    """the live tables behind Environment._set_default_options_from_env; None when they no longer have the shape
+    the model was written for (reported as a failed obligation by run())"""
+    try:
+        from mesonbuild import environment as E
+        from mesonbuild.compilers import compilers as CC
+        lf = [(str(k), str(v)) for k, v in CC.CFLAGS_MAPPING.items()]
+        nl = [(str(v), str(k)) for v, k in E.NON_LANG_ENV_OPTIONS]
+        ld, cpp = sorted(CC.LANGUAGES_USING_LDFLAGS), sorted(CC.LANGUAGES_USING_CPPFLAGS)
+        if not (isinstance(CC.LANGUAGES_USING_LDFLAGS, (set, frozenset)) and isinstance(CC.LANGUAGES_USING_CPPFLAGS, (set, frozenset))):
+            return None
+        return {'langflags': lf, 'nonlang': nl, 'ld': ld, 'cpp': cpp}
+    except Exception:
+        return None
+
+
+ENV_VALS = ['-DA', '-O2 -g', '', '-DA -DB -DA', "-DQ='a b'", '-I/x/y -DZ=1', '  -Wall  ', '-DE=\\"s\\"', '-L/lib -lz', '-Wl,--as-needed']
+ENV_PATHS = ['/a', '/a:/b', '/a::/b:/a', '/x;/y:/x', '', ':', '/p/q:/r']
+ENV_NOISE = ['HOME', 'LANG', 'XFLAGS', 'CFLAGS_EXTRA', 'MY_CPPFLAGS', 'CFLAGS_FOR_TARGET', 'PATH_EXTRA']
 
 
 def gen_cases(ctx: Ctx, mult: int = 1, only: T.Optional[T.Set[str]] = None) -> T.List[dict]:
@@ -340,6 +365,50 @@ def gen_cases(ctx: Ctx, mult: int = 1, only: T.Optional[T.Set[str]] = None) -> T
     for _ in range(n(60, 600)):
         err = ''.join(rng.choice(notes) if rng.random() < 0.7 else rstr(rng, 6, 0.2) for _ in range(rng.randint(0, 3)))
         group('gnuarg', [{'is_c': rng.random() < 0.5, 'rc': rng.choice([0, 0, 0, 1, 4]), 'stdout': rstr(rng, 5, 0.2), 'stderr': err}])
+    # environment variables -> option values -> compiler / linker arguments: the same variables in permuted
+    # enumeration orders (and, across workers, under different hash seeds: two of the tables are sets)
+    tabs = env_tables()
+    if tabs is not None:
+        allvars = [v for _k, v in tabs['langflags']] + [v for v, _k in tabs['nonlang']]
+        pathvars = {v for v, k in tabs['nonlang'] if k.endswith('_path')}
+        langs = [k for k, _v in tabs['langflags']]
+        for _ in range(n(70, 700)):
+            cross = rng.random() < 0.4
+            names = rng.sample(allvars, rng.randint(1, min(7, len(allvars))))
+            if rng.random() < 0.8:      # the pair whose relative order is fixed by the table, not by the environment
+                names = list(dict.fromkeys(names + rng.sample(['CFLAGS', 'CXXFLAGS', 'CPPFLAGS', 'LDFLAGS'], rng.randint(2, 4))))
+            env = []
+            for nm in names:
+                pool = ENV_PATHS if nm in pathvars else ENV_VALS
+                which = rng.choice(['plain', 'plain', 'build', 'both']) if cross else rng.choice(['plain', 'plain', 'plain', 'both'])
+                if which in ('plain', 'both'):
+                    env.append([nm, rng.choice(pool)])
+                if which in ('build', 'both'):
+                    env.append([nm + '_FOR_BUILD', rng.choice(pool)])
+            for nm in rng.sample(ENV_NOISE, rng.randint(0, 3)):
+                env.append([nm, rng.choice(ENV_VALS)])
+            rng.shuffle(env)
+            options = [o for o in [[0, 'pkg_config_path'], [1, 'pkg_config_path'], [1, 'cmake_prefix_path'], [1, 'c_args'], [1, 'buildtype']]
+                       if rng.random() < 0.2]
+            queries = []
+            for lang in rng.sample(langs, rng.randint(1, min(4, len(langs)))):
+                for m in rng.sample([0, 1], rng.randint(1, 2)):
+                    pa = rng.choice([None, None, None, ['-DPEND'], []])
+                    pl = rng.choice([None, None, None, ['-lpend', '-lq']])
+                    queries.append([lang, m, rng.random() < 0.75, pa, pl])
+            base = {'cross': cross, 'first': rng.random() < 0.9, 'win': [rng.random() < 0.15, rng.random() < 0.15],
+                    'options': options, 'queries': queries}
+            group('envargs', [dict(base, env=p) for p in perms(rng, env, V)])
+    # two more emitters that sort a set before printing: install-plan build_rpaths, the depaccumulate statement
+    for _ in range(n(60, 600)):
+        items = distinct(rng, rng.randint(0, 6), lambda: '/' + rstr(rng, 5, 0))
+        group('buildrpaths', [{'items': p} for p in perms(rng, items, V)])
+    pool = ['liba', 'libb', 'sub/libc', 'x y', 'é', 'mod:1', 'z$', 'lib/d.so.p', 'M']
+    for _ in range(n(60, 600)):
+        linked = [[nm, rng.random() < 0.8] for nm in rng.sample(pool, rng.randint(0, 5))]
+        od = [[nm, rng.random() < 0.7] for nm in rng.sample(pool, rng.randint(0, 4))]
+        name = rng.choice(['tgt', 'a b', 't:1'])
+        group('depacc', [{'name': name, 'linked': pl_, 'od': po} for pl_, po in zip(perms(rng, linked, V), perms(rng, od, V))])
     # writers on a real directory
     for _ in range(n(120, 1500)):
         fam_b = rng.sample([0, 1, 2, 3], rng.randint(0, 2))
@@ -497,7 +566,7 @@ def inproc_layer(ctx: Ctx, cases: T.List[dict], seeds: T.List[str], compare_mode
             ctx.tag('error:' + r['impl'].split(':')[1])
         if a != r['impl']:
             ctx.disagreement({'kind': c['kind'], 'case': strip_case(c), 'hashseed': seed, 'impl': r['impl'][:400], 'model': a[:400]})
-        nontrivial = (c['kind'] in ('sorted', 'buildline', 'envhash', 'cheader', 'optsort', 'buildopts', 'excludes', 'testser', 'depfile', 'formatreqs', 'depid', 'genlistdeps')
+        nontrivial = (c['kind'] in ('sorted', 'buildline', 'envhash', 'cheader', 'optsort', 'buildopts', 'excludes', 'testser', 'depfile', 'formatreqs', 'depid', 'genlistdeps', 'envargs', 'buildrpaths', 'depacc')
                       and r['line'] != '' and len(json.dumps(strip_case(c))) > 60) or c['kind'] == 'fs'
         if nontrivial:
             ctx.seen_nontrivial((c['kind'], json.dumps(strip_case(c), sort_keys=True)))
@@ -794,6 +863,22 @@ def run(ctx: Ctx) -> None:
         finish()
     finally:
         S.force_rmtree(root0)
+    # the literal tables the Lean examples are stated on must be the live ones
+    tabs = env_tables()
+    if tabs is None:
+        ctx.obligation_failed('env-tables', 'CFLAGS_MAPPING / NON_LANG_ENV_OPTIONS / LANGUAGES_USING_LDFLAGS / LANGUAGES_USING_CPPFLAGS no longer '
+                              'have the shape the model of Environment._set_default_options_from_env was written for')
+    elif ctx.model_available:
+        live = '#'.join([common.enc_list([k for k, _ in tabs['langflags']]), common.enc_list([v for _, v in tabs['langflags']]),
+                         common.enc_list([v for v, _ in tabs['nonlang']]), common.enc_list([k for _, k in tabs['nonlang']]),
+                         common.enc_list(tabs['ld']), common.enc_list(tabs['cpp'])])
+        ans = ctx.driver('det', ['envtable x'])
+        if ans != [live]:
+            ctx.obligation_failed('env-tables', 'the environment-variable tables of the source differ from the ones the Lean examples '
+                                  f'(MesonModel.Det.liveCfg) are stated on: live {tabs}')
+        bad = [k for _v, k in tabs['nonlang'] if not re.fullmatch(r'[a-z_]+', k)] + [k for k, _v in tabs['langflags'] if not re.fullmatch(r'[a-z]+', k)]
+        if bad:
+            ctx.obligation_failed('env-tables', f'key names that OptionKey.from_string would not read as plain names: {bad}')
     from . import c06_sites
     sites = c06_sites.scan()
     ctx.extra['unordered_sites_total'] = sites['total']
@@ -840,6 +925,11 @@ def run(ctx: Ctx) -> None:
 def search(ctx: Ctx, disagreements: T.List[dict]) -> None:
     """a theorem / correspondence no longer checks: look for an input on which the *implementation* breaks
     the property — larger case stream for the affected emitters (all when a proof broke), more hash seeds"""
+    if getattr(ctx, 'violations', None):
+        # run() already holds a concrete failing input found by the oracle on the implementation: the verdict is
+        # settled, a 4x stream under 12 hash seeds would only repeat it (it dominated the run time of a broken tree)
+        ctx.notes.append('search skipped: the oracle of run() already produced a concrete failing input')
+        return
     kinds = {d['kind'] for d in disagreements} or None
     if ctx.obligations_failed:
         kinds = None
